@@ -422,6 +422,7 @@ func str2numFunc(scope *scope, args []value) (value, error) {
 	s := args[0].(*stringVal)
 	n, err := strconv.ParseFloat(s.V, 64)
 	if err != nil {
+		n = 0 // documented result on failure; ParseFloat returns ±Inf for out-of-range input
 		msg := fmt.Sprintf("str2num: cannot parse %q", s.V)
 		setGlobalErr(scope, msg)
 	}
